@@ -49,8 +49,24 @@ META = {
                   "driver canonicalisation: read-back values cast to the attribute's type and compared exactly, strings as "
                   "character-code lists, numpy arrays of complex/str passed to a write encoded as unsupported component types); "
                   "numpy semantics assumed: np.array/np.full/np.concatenate allocate, a[k,:] and squeeze are views, dtype "
-                  "conversion on assignment (`store`). Not covered: `k in dense_string_attr`, numpy uint8, negative component "
-                  "indices in updates, sparse writes outside the container beyond dict semantics.",
+                  "conversion on assignment (`store`). Numeric limits (modelled and generated: 2**31, 2**53+1, 2**63-1, 2**63, 2**64, "
+                  "-2**63-1, 2**1100): an int outside int64 written to an int attribute, or beyond the doubles written to a float "
+                  "attribute, is refused by BOTH storages (numpy OverflowError, EOverflow); an int widened to float reads back as "
+                  "the nearest double (round53 = python float()). In-place updates through a reference kept across other "
+                  "operations (Mut) are outside the agreement theorem (only attr[k][c] = x is inside); C05_no_aliasing covers "
+                  "them. DataContainer(attributes=dict) adopts the caller's attribute objects: outside the property's operations. "
+                  "Deliberately left FREE by the oracle (the property text is silent; the model still describes what the current "
+                  "code does, so a change there can only make the run `unproved`, never a violation with a replay): the "
+                  "exception class and message of every refusal (only the dense out-of-bounds answer must be "
+                  "Attribute.OutOfBoundsError); what `container += x` does with an operand form the text does not name (numpy "
+                  "array, range, generator, iterator, mapping, None, a corner list with an item that cannot be unpacked): a "
+                  "refusal that changes nothing OR an acceptance that grows the container by k >= 0 with every attribute "
+                  "aligned - the Coq case then uses the model operation matching the answer (ExtendBad / ExtendList k), alignment "
+                  "is proved for both; deleting a missing attribute (silent or refused); `k in attr`, len and iteration order of "
+                  "a sparse attribute; the python/numpy type of a returned scalar (values are compared after conversion to the "
+                  "attribute's type); the squeeze convention of as_array (only: both storages export the same shape and dtype "
+                  "for the same size/arity/type); repr/str. Not covered: `k in dense_string_attr`, negative component indices in "
+                  "updates, whole-array assignment to an exported array.",
 }
 
 HEADER = """From Coq Require Import ZArith List Bool.
@@ -541,6 +557,7 @@ class Oracle:
         self.refs = []
         self.uid = 0
         self.corner = corner
+        self.shapes = {}
 
     def expected_row(self, A, key):
         return A["m"].get(key, A["dflt"])
@@ -629,21 +646,24 @@ class Oracle:
             self.new_attr(a, t, k, True, d, m={i: [c[:2] if c[0] != "c" else c for c in r] for i, r in enumerate(rows)})
             return None
         if nm == "delete":
+            had = op[1] in self.attrs
+            if had and o != ["ok"]:
+                return "delete of an existing attribute answered %s" % (o,)
+            if not had and o[0] not in ("ok", "err"):       # deleting a missing attribute: silent or refused, the text does not say
+                return "delete answered %s" % (o,)
             self.attrs.pop(op[1], None)
-            return None if o == ["ok"] else "delete answered %s" % (o,)
+            return None
         if nm == "has":
             return None if o == ["bool", op[1] in self.attrs] else "has_attribute answered %s" % (o,)
         if nm in ("clear_attr", "as_array", "len", "iter", "set", "get", "update", "contains") and A is None:
-            return None if o == ["err", "noattr"] else "operation on a missing attribute answered %s" % (o,)
+            return None if o[0] == "err" else "operation on a missing attribute answered %s" % (o,)
         if nm == "clear_attr":
             A["m"] = {}
             A["keys"] = set()
             A["wt"] = set()
             return None if o == ["ok"] else "clear answered %s" % (o,)
         if nm == "contains":
-            if A["dense"]:
-                return None          # python's fallback to iteration: membership among the values, not judged
-            return None if o == ["bool", op[2] in A["keys"]] else "`%d in attr` (sparse) answered %s, keys written: %s" % (op[2], o, sorted(A["keys"]))
+            return None          # `k in attr` is not a read of an entry: the property leaves it free (modelled, not judged)
         if nm in ("as_array", "iter"):
             if nm == "iter" and not A["dense"]:
                 return None
@@ -655,10 +675,15 @@ class Oracle:
                 return "%s answered %s for a container of %d elements" % (nm, o, self.n)
             if nm == "as_array":
                 self.refs.append(("arr", op[1], A["uid"]))
-                want = [d for d in (self.n, A["k"]) if d != 1]       # (n, arity) without its axes of length 1 (np.squeeze)
-                if len(o) >= 4 and (o[2] != want or o[3] != A["t"]):
-                    return "as_array of %s attribute of arity %d on %d elements has shape %s dtype %s, both storages export shape %s dtype %s" % (
-                        "dense" if A["dense"] else "sparse", A["k"], self.n, tuple(o[2]), o[3], tuple(want), A["t"])
+                if len(o) >= 4:
+                    # whatever the convention (np.squeeze or not): every export of an attribute of the same arity and type
+                    # over the same number of elements has the same shape and dtype, sparse or dense
+                    key_ = (self.n, A["k"], A["t"])
+                    seen = self.shapes.setdefault(key_, (o[2], o[3], A["dense"]))
+                    if (o[2], o[3]) != seen[:2]:
+                        return "as_array of the %s attribute of arity %d on %d elements has shape %s dtype %s, the %s one had shape %s dtype %s: both storages export shape alike" % (
+                            "dense" if A["dense"] else "sparse", A["k"], self.n, tuple(o[2]), o[3],
+                            "dense" if seen[2] else "sparse", tuple(seen[0]), seen[1])
             for j in range(self.n):
                 e = self.expected_row(A, j)
                 if e == UNKNOWN:
@@ -671,9 +696,7 @@ class Oracle:
         if nm == "len":
             if A["dense"] and o != ["nat", self.n]:
                 return "len(dense attribute) answered %s, the container has %d elements" % (o, self.n)
-            if not A["dense"] and not any((k < 0 or k >= self.n) for k in A["keys"]) and o != ["nat", len(A["keys"])]:
-                return "len(sparse attribute) answered %s, %d keys were written" % (o, len(A["keys"]))
-            return None
+            return None          # len of a sparse attribute (number of stored keys) is left free by the property
         if nm in ("set", "get", "update"):
             key = op[2]
             if A["dense"] and not (0 <= key < self.n):
@@ -699,9 +722,9 @@ class Oracle:
                 self.refs.append(("vec", op[1], A["uid"], key))
                 c = op[3]
                 if not (0 <= c < A["k"]):
-                    return None if o == ["err", "index"] else "item assignment at component %d of %d answered %s" % (c, A["k"], o)
+                    return None if o[0] == "err" else "item assignment at component %d of %d answered %s" % (c, A["k"], o)
                 if not representable(op[4], A["t"]):
-                    return None if o == ["err", "overflow"] else "item assignment of an unrepresentable int answered %s" % (o,)
+                    return None if o[0] == "err" else "item assignment of an unrepresentable int answered %s" % (o,)
                 if o != ["ok"]:
                     return "attr[%d][%d] = x answered %s" % (key, c, o)
                 written = key in A["keys"]
@@ -754,12 +777,21 @@ class Oracle:
             return self.snapshot_check(o[1])
         if nm in ("append", "extend_list", "extend_other", "extend_self", "extend_bad", "clear_all", "extend_list_bad"):
             if nm == "extend_bad" or (nm == "extend_list_bad" and self.corner):
-                if o[0] != "growerr":
-                    return "appending %s answered %s" % ("a non-collection" if nm == "extend_bad" else "a list with an item that cannot be unpacked", o)
-                if o[2] != self.n:
-                    return "a refused append changed the container length from %d to %d" % (self.n, o[2]) + \
-                        ("; " + (self.lens_check(o[3], "after the refused append") or "") if self.lens_check(o[3], "x") else "")
-                return self.lens_check(o[3], "after a refused append")
+                # an operand form the property does not name (numpy array, range, generator, mapping, None, a corner list
+                # with an item that cannot be unpacked): EITHER it is refused - any exception - and nothing changes, OR it is
+                # taken and the container grew by some k >= 0 with every attribute aligned (old values intact and defaults
+                # at the new indices are checked by every later read / export / snapshot)
+                if o[0] == "growerr":
+                    if o[2] != self.n:
+                        m = self.lens_check(o[3], "after the refused append")
+                        return "a refused append changed the container length from %d to %d" % (self.n, o[2]) + ("; " + m if m else "")
+                    return self.lens_check(o[3], "after a refused append")
+                if o[0] == "grow":
+                    if o[1] < self.n:
+                        return "an append shrank the container from %d to %d elements" % (self.n, o[1])
+                    self.n = o[1]
+                    return self.lens_check(o[2], "after appending an operand of a form the property does not name (accepted)")
+                return "appending answered %s" % (o,)
             if nm == "clear_all":
                 self.n = 0
                 self.attrs = {}
@@ -799,7 +831,7 @@ def classify(msg):
                      ("shared-default-object", "after the in-place update"),
                      ("container-iadd-container", "extend_other failed"),
                      ("container-iadd-self", "extend_self"),
-                     ("export-shape", "both storages export shape"),
+                     ("export-shape", "both storages export shape alike"),
                      ("accepted-malformed-value", "accepted the value"),
                      ("vector-default-read", "read of an arity"),
                      ("alignment", "not aligned")):
@@ -973,8 +1005,18 @@ def obs_term(o, I):
 def case_term(case, obs):
     I = Interner()
     items = []
+    n_prev = 0
     for op, o in zip(case["ops"], obs):
-        items.append("(%s, %s)" % (op_term(op, I), obs_term(o, I)))
+        if op[0] in ("extend_bad", "extend_list_bad") and o[0] == "grow" and (op[0] == "extend_bad" or case["cont"] == "corner"):
+            # an operand form the property does not name was TAKEN: specified like += list of (new - old) elements
+            items.append("((ExtendList %s), %s)" % (zlit(o[1] - n_prev), obs_term(o, I)))
+        elif op[0] in ("extend_bad", "extend_list_bad") and o[0] == "growerr" and (op[0] == "extend_bad" or case["cont"] == "corner"):
+            # ... or REFUSED: any exception class, nothing changes
+            items.append("(%s, %s)" % (op_term(op, I), obs_term(["growerr", "badappend" if op[0] == "extend_bad" else "unpack", o[2], o[3]], I)))
+        else:
+            items.append("(%s, %s)" % (op_term(op, I), obs_term(o, I)))
+        if o[0] in ("grow", "growerr"):
+            n_prev = o[1] if o[0] == "grow" else o[2]
         if op[0] == "as_array":
             # the same export seen through its shape and dtype (a second, state-neutral model operation)
             if o[0] == "rows" and len(o) >= 4:
